@@ -26,6 +26,9 @@ pub enum FaultSpec {
     BadAppRegion,
     Libc(String, Alt),
     StopFailpoint,
+    /// StopProcess fail point on (so threads can run) and the spin threads in `mask` (bit i = thread
+    /// index i) exit right before the attach of thread `at`
+    ExitSubset(u32, usize),
 }
 
 #[derive(Clone, Debug, PartialEq)]
@@ -54,6 +57,7 @@ impl Case {
             FaultSpec::BadAppRegion => json!("bad_app_region"),
             FaultSpec::Libc(k, a) => json!({"libc": k, "alt": format!("{a:?}")}),
             FaultSpec::StopFailpoint => json!("stop_failpoint"),
+            FaultSpec::ExitSubset(m, at) => json!({"exit_mask": m, "at": at}),
         };
         json!({"n": self.n, "fault": f, "events": self.events.iter().map(|e| json!([e.at, if e.thread == usize::MAX { -1 } else { e.thread as i64 }, e.sig])).collect::<Vec<_>>()})
     }
@@ -65,6 +69,8 @@ impl Case {
             FaultSpec::BadAppRegion
         } else if f.as_str() == Some("stop_failpoint") {
             FaultSpec::StopFailpoint
+        } else if let Some(m) = f.get("exit_mask") {
+            FaultSpec::ExitSubset(m.as_u64()? as u32, f.get("at")?.as_u64()? as usize)
         } else if let Some(k) = f.get("dest_err") {
             FaultSpec::DestErr(k.as_u64()? as usize)
         } else if let Some(k) = f.get("dest_panic") {
@@ -106,6 +112,8 @@ fn tid_of(p: &Puppet, idx: usize) -> i32 {
 }
 
 pub struct Outcome {
+    /// the target changed shape (threads exited): do not reuse it
+    pub respawn: bool,
     pub fails: Vec<(String, String)>,
     pub result_kind: u8,
     pub saw_non_sigstop_stop: bool,
@@ -157,6 +165,25 @@ fn run_case_inner(p: &mut Puppet, c: &Case) -> Outcome {
         FaultSpec::BadAppRegion => spec.opts.app_memory.push((0x10, 32)),
         FaultSpec::Libc(k, a) => spec.plan.push((k.clone(), a.clone())),
         FaultSpec::StopFailpoint => spec.failpoints = 1,
+        FaultSpec::ExitSubset(mask, at) => {
+            spec.failpoints = 1;
+            let victims: Vec<(u64, i32)> = (1..c.n).filter(|i| mask & (1 << i) != 0 && p.threads[i - 1].kind == Kind::Spin).map(|i| (p.threads[i - 1].page + crate::puppet::OFF_RELEASE, p.threads[i - 1].tid)).collect();
+            let mem = std::fs::OpenOptions::new().write(true).open(format!("/proc/{pid}/mem")).expect("mem");
+            let at = *at;
+            let cb: Callback = Box::new(move |_k| {
+                use std::os::unix::fs::FileExt;
+                for (addr, _) in &victims {
+                    let _ = mem.write_all_at(&1u64.to_le_bytes(), *addr);
+                }
+                let dl = std::time::Instant::now() + std::time::Duration::from_millis(500);
+                for (_, tid) in &victims {
+                    while std::path::Path::new(&format!("/proc/{pid}/task/{tid}")).exists() && std::time::Instant::now() < dl {
+                        std::thread::sleep(std::time::Duration::from_micros(200));
+                    }
+                }
+            });
+            before.insert(format!("attach:t{at}"), cb);
+        }
     }
     let out: EnvOut = env_dump(p, &spec, before, after);
     let result_kind = match &out.result {
@@ -170,7 +197,27 @@ fn run_case_inner(p: &mut Puppet, c: &Case) -> Outcome {
         FaultSpec::BadAppRegion => result_kind == 1,
         FaultSpec::Libc(k, _) => out.trace.iter().any(|t| &t.key == k && t.deviated),
         FaultSpec::StopFailpoint => true,
+        FaultSpec::ExitSubset(..) => true,
     };
+    let mut respawn = false;
+    if let FaultSpec::ExitSubset(mask, _) = &c.fault {
+        respawn = true;
+        // released threads that were already attached exit right after the dump: give them a moment,
+        // then take every vanished thread off the books (an exited thread owes nothing)
+        std::thread::sleep(std::time::Duration::from_millis(20));
+        for i in 1..c.n {
+            if mask & (1 << i) != 0 && p.threads[i - 1].kind == Kind::Spin {
+                let dl = std::time::Instant::now() + std::time::Duration::from_secs(2);
+                while std::path::Path::new(&format!("/proc/{pid}/task/{}", p.threads[i - 1].tid)).exists() && std::time::Instant::now() < dl {
+                    std::thread::sleep(std::time::Duration::from_millis(1));
+                }
+                if std::path::Path::new(&format!("/proc/{pid}/task/{}", p.threads[i - 1].tid)).exists() {
+                    fails.push(("released-thread-never-exited".into(), format!("thread {} was told to exit during the dump but is still there 2 s after it", p.threads[i - 1].tid)));
+                }
+                p.threads[i - 1].alive = false;
+            }
+        }
+    }
     if let (DumpResult::Panic(m), false) = (&out.result, matches!(c.fault, FaultSpec::DestPanic(_))) {
         fails.push(("dump-panicked".into(), format!("dump panicked: {m}")));
     }
@@ -213,7 +260,7 @@ fn run_case_inner(p: &mut Puppet, c: &Case) -> Outcome {
         unsafe {
             libc::syscall(libc::SYS_kill, p.pid, libc::SIGCONT);
         }
-        return Outcome { fails, result_kind, saw_non_sigstop_stop, signals_sent: sent.borrow().len(), fault_hit };
+        return Outcome { respawn: true, fails, result_kind, saw_non_sigstop_stop, signals_sent: sent.borrow().len(), fault_hit };
     }
     // --- oracle 2: every thread makes progress
     let ping_ok = p.cmd("ping").is_ok();
@@ -269,8 +316,10 @@ fn run_case_inner(p: &mut Puppet, c: &Case) -> Outcome {
     if got.len() > want.len() {
         fails.push(("spurious-signal".into(), format!("{} handler runs for {} signals sent: {got:?}", got.len(), want.len())));
     }
-    p.quiesce();
-    Outcome { fails, result_kind, saw_non_sigstop_stop, signals_sent: want.len(), fault_hit }
+    if !respawn {
+        p.quiesce();
+    }
+    Outcome { respawn, fails, result_kind, saw_non_sigstop_stop, signals_sent: want.len(), fault_hit }
 }
 
 fn placements(n: usize) -> Vec<String> {
@@ -405,10 +454,23 @@ pub fn run(ctx: &Ctx, rep: &mut Report) {
             }
         }
     }
+    // thread exits between enumeration and attach: every subset of the two spin threads of a 5-thread
+    // target, at two placements, with and without a signal event aimed at a thread that exits / stays
+    for mask in [0u32, 1 << 2, 1 << 4, (1 << 2) | (1 << 4)] {
+        for at in [1usize, 3] {
+            all.push(Case { n: 5, fault: FaultSpec::ExitSubset(mask, at), events: vec![] });
+            for (thread, sig) in [(2usize, 0usize), (4, 1), (1, 0), (usize::MAX, 2)] {
+                all.push(Case { n: 5, fault: FaultSpec::ExitSubset(mask, at), events: vec![Event { at: "opendir:/proc/P/task#0".into(), thread, sig }] });
+                if thorough {
+                    all.push(Case { n: 5, fault: FaultSpec::ExitSubset(mask, at), events: vec![Event { at: format!("attach:t{at}"), thread, sig }] });
+                }
+            }
+        }
+    }
     // run: chunks share one puppet each
     let chunks: Vec<Vec<Case>> = {
         let mut by_n: Vec<Vec<Case>> = Vec::new();
-        for n in [3usize, 1] {
+        for n in [3usize, 1, 5] {
             let cs: Vec<Case> = all.iter().filter(|c| c.n == n).cloned().collect();
             let per = cs.len().div_ceil(if n == 3 { 12 } else { 4 }).max(1);
             for part in cs.chunks(per) {
@@ -425,7 +487,7 @@ pub fn run(ctx: &Ctx, rep: &mut Report) {
                 p = make_target(c.n);
             }
             let o = run_case(&mut p, c);
-            let broken = o.fails.iter().any(|f| f.0.starts_with("left-") || f.0 == "main-thread-dead");
+            let broken = o.respawn || o.fails.iter().any(|f| f.0.starts_with("left-") || f.0 == "main-thread-dead");
             out.push((c.clone(), o));
             if broken {
                 p = make_target(c.n); // do not let one failure poison the following cases
